@@ -145,6 +145,20 @@ fn string_op_inner<'b>(ctx: &mut Ctx, bump: &'b Bump, s: &mut BString<'b>, t: &m
                             got.push(ch);
                         }
                     }
+                    // the size hint must bracket what is really left; formatting the Drain must not disturb it
+                    let (lo, hi) = d.size_hint();
+                    let dbg_len = {
+                        let _u = ledger::enter_user();
+                        format!("{:?}", d).len()
+                    };
+                    let mut rest = 0usize;
+                    for ch in d {
+                        rest += 1;
+                        got.push(ch);
+                    }
+                    if lo > rest || hi.map_or(false, |h| h < rest) || dbg_len == 0 {
+                        got.push_str("<<size_hint of string::Drain does not bracket the remaining chars>>");
+                    }
                     got
                 },
                 || {
@@ -159,6 +173,9 @@ fn string_op_inner<'b>(ctx: &mut Ctx, bump: &'b Bump, s: &mut BString<'b>, t: &m
                         if let Some(ch) = d.next_back() {
                             got.push(ch);
                         }
+                    }
+                    for ch in d {
+                        got.push(ch);
                     }
                     got
                 },
@@ -356,8 +373,11 @@ fn string_op_inner<'b>(ctx: &mut Ctx, bump: &'b Bump, s: &mut BString<'b>, t: &m
                 use std::hash::{Hash, Hasher};
                 let owned = other.clone();
                 let cow: Cow<str> = Cow::Borrowed(&other);
-                let eqs = (*s == *other.as_str(), *s == &other[..], owned == *s, cow == *s, *s == *s);
-                let eqt = (*t == *other.as_str(), *t == &other[..], owned == *t, cow == *t, true);
+                let eqs = (*s == *other.as_str(), *s == &other[..], owned == *s, cow == *s, *s == *s, *other.as_str() == *s, &other[..] == *s, *s == owned, *s == cow, *s != *other.as_str(), &other[..] != *s);
+                let eqt = (*t == *other.as_str(), *t == &other[..], owned == *t, cow == *t, true, *other.as_str() == *t, &other[..] == *t, *t == owned, *t == cow, *t != *other.as_str(), &other[..] != *t);
+                if !std::ptr::eq(s.bump(), bump) {
+                    ctx.v("C14", "String::bump() does not return the arena the string was created in".into());
+                }
                 if eqs != eqt {
                     ctx.v("C14", format!("PartialEq impls (str, &str, String, Cow) give {:?}, std gives {:?}", eqs, eqt));
                 }
@@ -491,6 +511,9 @@ pub fn bytes_to_string<'b>(ctx: &mut Ctx, v: VSlot<'b, u8, u8>) -> Slot<'b> {
         (Ok(s), Ok(t)) => Slot::S { s, t },
         (Err(es), Err(et)) => {
             let (a, b) = (es.utf8_error(), et.utf8_error());
+            if es.to_string() != a.to_string() || es.as_bytes() != et.as_bytes() {
+                ctx.v("C14", format!("FromUtf8Error displays {:?} (its Utf8Error: {:?}) / holds bytes {:02x?} (std: {:02x?})", es.to_string(), a.to_string(), es.as_bytes(), et.as_bytes()));
+            }
             if (a.valid_up_to(), a.error_len()) != (b.valid_up_to(), b.error_len()) {
                 ctx.v("C14", format!("from_utf8 error position ({}, {:?}) differs from std ({}, {:?})", a.valid_up_to(), a.error_len(), b.valid_up_to(), b.error_len()));
             }
